@@ -55,6 +55,9 @@ def proj (prop : String) (o : Out) : String :=
     | "C06" => (match decodeSym s with
         | .error e => "undecodable:" ++ e
         | .ok r => toHex r.dataCodewords)
+    | "C07" => (match decodeSym s with
+        | .error e => "undecodable:" ++ e
+        | .ok r => blocksStr r.blocks)
     | "C10" => "ok"
     | "C15" => labelsStr s
     | _ => s!"{optStr s.ecl} {optStr s.mode} {optStr s.version} {optStr s.mask} {s.grid.n} {nibbles s.grid.a} {s.tailClean}"
@@ -95,6 +98,15 @@ def specBuild (prop : String) (ba : BuildArgs) (o : Out) : Option String :=
            ((r.blocks.zipIdx).findSome? fun ((d, e), b) =>
              if (Spec.GF.syndromes (d ++ e) ec).all (· == 0) then none else some s!"nonzero-syndrome:block{b}"),
            cmp "block-count" (toString sizes.length) (toString r.blocks.length)])
+    | "C07" =>
+      -- the EC codewords physically in the symbol: per Table 9 block, the remainder of its data codewords
+      (match decodeSym s with
+       | .error e => some ("undecodable:" ++ e)
+       | .ok r =>
+         let ec := Spec.Decode.ecLen v r.ecl
+         let gp := Spec.GF.genPoly ec
+         (r.blocks.zipIdx).findSome? fun ((d, e), b) =>
+           if e == Spec.GF.remainder d gp then none else some s!"ec-codewords-are-not-the-remainder:block{b}")
     | "C03" =>
       firstFail [
         (match s.version with
